@@ -13,7 +13,7 @@ from __future__ import annotations
 import asyncio
 import random
 
-from vsim.core import EventLog, RunResult, Tapes, use_repo
+from vsim.core import EventLog, RunResult, Tapes, use_repo, task_exc
 from vsim.gw import gc_paused
 from vsim.loop import new_loop
 from vsim.streams import SimPeer, install_network, make_open_serial_connection
@@ -181,24 +181,24 @@ def _run(scn, cfg, w, peer, res):
             if not t.done():
                 res.violate(PROP, "use-before-connect", f"{name}:hang", "")
                 t.cancel()
-            elif t.exception() is None:
+            elif task_exc(t) is None:
                 res.violate(PROP, "use-before-connect", f"{name}:returned", repr(t.result()))
             else:
-                must_be_transport_error("use-before-connect", t.exception(), name)
+                must_be_transport_error("use-before-connect", task_exc(t), name)
         t = run_coro(tr.disconnect())
-        if not t.done() or t.exception() is not None:
-            res.violate(PROP, "use-before-connect", "disconnect-raised", repr(t.exception() if t.done() else "hang"))
+        if not t.done() or task_exc(t) is not None:
+            res.violate(PROP, "use-before-connect", "disconnect-raised", repr(task_exc(t) if t.done() else "hang"))
 
     # ---- connect ----
     t = run_coro(tr.connect())
     if not t.done():
         res.violate(PROP, "connect", "hang", "")
         return
-    if t.exception() is not None:
+    if task_exc(t) is not None:
         res.probes["connect_failed"] += 1
-        must_be_transport_error("connect", t.exception(), "connect-error")
+        must_be_transport_error("connect", task_exc(t), "connect-error")
         if not scn.get("tapes", {}).get("connect.fail"):
-            res.violate(PROP, "connect", "failed-without-fault", repr(t.exception()))
+            res.violate(PROP, "connect", "failed-without-fault", repr(task_exc(t)))
         res.nontrivial_key = "C17:" + w.elog.digest()[:24]
         return
     if scn.get("tapes", {}).get("connect.fail"):
@@ -433,22 +433,22 @@ def _run(scn, cfg, w, peer, res):
     t = run_coro(tr.disconnect())
     if not t.done():
         res.violate(PROP, "disconnect", "hang", "")
-    elif t.exception() is not None:
-        res.violate(PROP, "disconnect", f"raised:{exc_name(t.exception())}", repr(t.exception())[:200])
+    elif task_exc(t) is not None:
+        res.violate(PROP, "disconnect", f"raised:{exc_name(task_exc(t))}", repr(task_exc(t))[:200])
     elif cfg["close_error"] and (w.faults.get("stream_close_error") or w.faults.get("stream_close_raises")):
         res.probes["close_error"] += 1
         if w.faults.get("stream_close_raises"):
             res.probes["close_raises_synchronously"] += 1
     # ---- a second session on the same transport object: what a caller's reconnect loop does ----
-    if cfg.get("second_session") and t.done() and t.exception() is None:
+    if cfg.get("second_session") and t.done() and task_exc(t) is None:
         res.probes["second_session"] += 1
         peer2 = SimPeer(w, "peer2")
         install_network(w, peer2)
         _serial_mod.open_serial_connection = make_open_serial_connection(w, peer2)
         w.tapes = Tapes({})
         t2 = run_coro(tr.connect())
-        if not t2.done() or t2.exception() is not None:
-            res.violate(PROP, "reconnect", f"connect-failed:{exc_name(t2.exception()) if t2.done() else 'hang'}", "")
+        if not t2.done() or task_exc(t2) is not None:
+            res.violate(PROP, "reconnect", f"connect-failed:{exc_name(task_exc(t2)) if t2.done() else 'hang'}", "")
         elif not peer2.connected:
             res.violate(PROP, "reconnect", "no-new-connection-opened", "connect() after disconnect() returned without connecting")
         else:
@@ -457,18 +457,18 @@ def _run(scn, cfg, w, peer, res):
             got = []
             for _ in range(2):
                 tt = run_coro(tr.read())
-                got.append(tt.result() if tt.done() and tt.exception() is None else
-                           ("err:" + exc_name(tt.exception()) if tt.done() else "hang"))
+                got.append(tt.result() if tt.done() and task_exc(tt) is None else
+                           ("err:" + exc_name(task_exc(tt)) if tt.done() else "hang"))
                 if not tt.done():
                     tt.cancel()
             if got != ["7;1;1;0;0;21.0\n", "7;2;1;0;1;50\n"]:
                 res.violate(PROP, "reconnect", "second-session-reads-differ", f"got {got}")
             tw = run_coro(tr.write("9;9;1;0;2;1\n"))
-            if not tw.done() or tw.exception() is not None or bytes(peer2.received) != b"9;9;1;0;2;1\n":
+            if not tw.done() or task_exc(tw) is not None or bytes(peer2.received) != b"9;9;1;0;2;1\n":
                 res.violate(PROP, "reconnect", "second-session-write-lost",
-                            f"peer got {bytes(peer2.received)!r} ({exc_name(tw.exception()) if tw.done() and tw.exception() else ''})")
+                            f"peer got {bytes(peer2.received)!r} ({exc_name(task_exc(tw)) if tw.done() and task_exc(tw) else ''})")
             td = run_coro(tr.disconnect())
-            if not td.done() or td.exception() is not None:
+            if not td.done() or task_exc(td) is not None:
                 res.violate(PROP, "disconnect", "second-session-disconnect-raised", "")
     # ---- probes ----
     off = 0
